@@ -31,10 +31,8 @@ def q(s: str) -> str:
             out.append("\\t")
         elif ch == "\r":
             out.append("\\r")
-        elif ord(ch) > 126 or ord(ch) < 32:
-            out.append("\\u{%04X}" % ord(ch) if ord(ch) <= 0xFFFF else "\\u{%06X}" % ord(ch))
         else:
-            out.append(ch)
+            out.append(ch)       # printed raw: `\u{..}` escapes followed by text are mis-decoded by the scanner
     return '"' + "".join(out) + '"'
 
 
@@ -111,6 +109,41 @@ def show(e) -> str:  # noqa: PLR0911, PLR0912
 
 def show_grammar(rules: dict) -> str:
     return "\n".join(f"{n} = {m}{{ {show(e)} }}" for n, (m, e) in rules.items())
+
+
+def show_min(e, ctx: int = 0) -> str:
+    """Printer with *no* redundant parentheses, for ASTs recovered from real trees (where every
+    pair of parentheses is an explicit ("group", …) node).  ctx: 0 = choice allowed, 1 = sequence
+    allowed, 2 = term.  A choice/sequence in a tighter context cannot come from the front end; it is
+    parenthesised (and so becomes a Group on re-reading)."""
+    k = e[0]
+    if k == "choice":
+        s_ = " | ".join(show_min(x, 1) for x in e[1])
+        return s_ if ctx == 0 else "(" + s_ + ")"
+    if k == "seq":
+        s_ = " ~ ".join(show_min(x, 2) for x in e[1])
+        return s_ if ctx <= 1 else "(" + s_ + ")"
+    if k == "group":
+        return (f"#{e[2]} = " if e[2] else "") + "(" + show_min(e[1], 0) + ")"
+    if k in POSTFIX:
+        inner = e[1]
+        a = show_min(inner, 2)
+        if inner[0] in POSTFIX or inner[0] in ("and", "not") or (inner[0] == "id" and inner[2]):
+            a = "(" + a + ")"
+        suffix = {"opt": "?", "rep": "*", "rep1": "+"}.get(k)
+        if suffix is None:
+            suffix = {"exact": "{%d}" % e[2], "min": "{%d,}" % e[2], "max": "{,%d}" % e[2]}.get(k) or "{%d,%d}" % (e[2], e[3])
+        return a + suffix
+    if k in ("and", "not"):
+        # the front end parses the operand of a prefix operator with its postfix operators attached
+        return ("&" if k == "and" else "!") + show_min(e[1], 2)
+    if k == "push":
+        return "PUSH(" + show_min(e[1], 0) + ")"
+    return show(e)
+
+
+def show_grammar_min(rules: dict) -> str:
+    return "\n".join(f"{n} = {m}{{ {show_min(e)} }}" for n, (m, e) in rules.items())
 
 
 # ---------------------------------------------------------------- well-formedness (Python copy of WF)
